@@ -17,7 +17,7 @@ ASSUMPTIONS = [
     "the parent link of the copy's root is not constrained by the statement",
     "sharing of immutable values (strings) between copy and original is not 'mutable state'",
 ]
-REQUIRED = ["cross_session_documents", "copies", "edits_on_copy", "edits_on_original", "aliasing_checks", "inner_node_copies", "second_generation_copies", "wide_trees", "trees_with_repeated_id_strings", "original_registry_entries_rechecked", "copies_with_shared_nsmap_in_original"]
+REQUIRED = ["cross_session_documents", "copies", "edits_on_copy", "edits_on_original", "aliasing_checks", "inner_node_copies", "second_generation_copies", "deep_chain_copies", "trees_with_stale_parent_links", "wide_trees", "trees_with_repeated_id_strings", "original_registry_entries_rechecked", "copies_with_shared_nsmap_in_original"]
 EXHAUSTIVE = {"quick": False, "thorough": False}
 
 EDITS = ("content", "tail", "prefix", "name", "attr_add", "attr_overwrite", "attr_remove", "extras_add", "ns_declare", "ns_redeclare",
@@ -184,6 +184,19 @@ def one_tree(ctx, size, i):
         emlkit.discard(t)
         t = nodegen.wide_tree(rng, names=nodegen.NAMES[:6] if rng.random() < 0.5 else None)
         ctx.count("wide_trees")
+    if i % 9 == 7:
+        # a tree with a past: some listed nodes have no parent link or one that names a node elsewhere (children list edited
+        # directly, node taken over from another parent) - the parent links of the COPY point inside the copy all the same
+        inner = snapshot.walk(t)[1:]
+        for x in rng.sample(inner, min(3, len(inner))):
+            if rng.random() < 0.5:
+                x.parent = None
+            else:
+                former = Node("verifFormerParent")
+                former.children.append(x)
+                x.parent = former
+        if inner:
+            ctx.count("trees_with_stale_parent_links")
     share = rng.random() < 0.5
     if share:
         share_equal_maps(t)
@@ -269,13 +282,50 @@ def cross_session(ctx):
     emlkit.discard(loaded)
 
 
+def deep_chain_copy(ctx, depth):
+    """A chain a few hundred levels deep (well inside what the recursive library code manages) copies like any other tree."""
+    root = Node("section")
+    cur = root
+    for i in range(depth):
+        nxt = Node("section" if i % 2 else "para", content=str(i))
+        cur.add_child(nxt)
+        cur = nxt
+    ids_before = set(Node.store.keys())
+    wit = {"deep_chain": depth}
+    try:
+        c = root.copy()
+    except Exception as e:
+        ctx.violation(f"crash:{type(e).__name__}@{emlkit.raise_site(e)}|deep-chain", f"copy() of a chain of {depth} nodes raised {type(e).__name__}", wit)
+        emlkit.discard(root)
+        return
+    ctx.evaluated()
+    ctx.count("deep_chain_copies")
+    n, m, k = root, c, 0
+    while n.children and m.children:
+        if m.children[0].parent is not m or m.children[0] is n.children[0] or m.children[0].content != n.children[0].content \
+                or m.children[0].id in ids_before or Node.get_node_instance(m.children[0].id) is not m.children[0]:
+            ctx.violation("copy-differs-from-original|deep-chain", f"level {k} of the copied chain is not an independent registered copy", wit)
+            break
+        n, m, k = n.children[0], m.children[0], k + 1
+    else:
+        if n.children or m.children or k != depth:
+            ctx.violation("copy-differs-from-original|deep-chain", f"the copied chain has {k} levels, the original {depth}", wit)
+    emlkit.discard(root, c)
+
+
 def run(ctx, params):
     cross_session(ctx)
+    ctx.case(deep_chain_copy, ctx, 400, seconds=120.0)
     for i in range(params["trees"]):
         ctx.case(one_tree, ctx, ctx.rng.choice([1, 2, 3, 5, 8, 12, 25, 60]), i, seconds=60.0)
 
 
 def replay(ctx, witness):
+    if witness.get("deep_chain"):
+        deep_chain_copy(ctx, witness["deep_chain"])
+        ctx.distinct(1)
+        ctx.distinct(2)
+        return
     if witness.get("cross_session"):
         cross_session(ctx)
         ctx.distinct(1)
